@@ -8,6 +8,8 @@
 #include <stdio.h>
 #include <stdlib.h>
 #include <string.h>
+#include <sys/wait.h>
+#include <unistd.h>
 #include <mujoco/mujoco.h>
 #include "engine/engine_island.h"
 
@@ -73,8 +75,8 @@ static void do_dsu(char* line) {
     char* y = strtok_r(NULL, " \t\r\n", &save);
     char* z = strtok_r(NULL, " \t\r\n", &save);
     long a, b;
-    if (k && !strcmp(k, "m") && parse_int(x, &a) && parse_int(y, &b) && !z &&
-        a >= -1 && a < n && b >= -1 && b < n) { ops[nops++] = (op_t){0, (int)a, (int)b}; }
+    if (k && (!strcmp(k, "m") || !strcmp(k, "q")) && parse_int(x, &a) && parse_int(y, &b) && !z &&
+        a >= -1 && a < n && b >= -1 && b < n) { ops[nops++] = (op_t){k[0] == 'm' ? 0 : 3, (int)a, (int)b}; }
     else if (k && !strcmp(k, "r") && parse_int(x, &a) && !y && a >= 0 && a < n && x[0] != '-' && x[0] != '+') { ops[nops++] = (op_t){1, (int)a, 0}; }
     else if (k && !strcmp(k, "A") && !x) { ops[nops++] = (op_t){2, 0, 0}; }
     else bad = 1;
@@ -87,12 +89,12 @@ static void do_dsu(char* line) {
   for (int i = 0; i < n; i++) parent[i] = -1;
   for (int i = 0; i < nops; i++) {
     if (i) printf(" | ");
-    if (ops[i].kind == 0) {
+    if (ops[i].kind == 0 || ops[i].kind == 3) {
       errarmed = 1;
       if (setjmp(errjmp)) { errarmed = 0; printf("error"); continue; }
       mj_dsuMerge(parent, ops[i].a, ops[i].b);
       errarmed = 0;
-      printf("ok"); for (int j = 0; j < n; j++) printf(" %d", parent[j]);
+      printf("ok"); if (ops[i].kind == 0) for (int j = 0; j < n; j++) printf(" %d", parent[j]);
     } else if (ops[i].kind == 1) {
       if (parent[ops[i].a] < 0) { printf("undef"); continue; }   // documented precondition of mj_dsuRoot
       int r = mj_dsuRoot(parent, ops[i].a);
@@ -165,15 +167,18 @@ static void add_shape(mjsBody* b, int condim, double scale) {
   g->condim = condim;
 }
 
-// scene SEED NFREE NCHAIN NEQ NJEQ NTENDON JAC CONE STEPS SPREAD
+// scene SEED NFREE NCHAIN NEQ NJEQ NTENDON JAC CONE STEPS SPREAD NFLEX
 //   JAC 0 dense 1 sparse; CONE 0 pyramidal 1 elliptic
-static void do_scene(char* line) {
+static FILE* so;   // output of the current scene (memory stream inside the forked child)
+static void sprint_ints(const int* a, int n) { for (int i = 0; i < n; i++) fprintf(so, i ? " %d" : "%d", a[i]); }
+
+static void scene_body(char* line) {
   int* a; int na = parse_list(line + 5, &a);
-  if (na != 10) { if (na >= 0) free(a); printf("bad-op\n"); return; }
-  for (int i = 0; i < 10; i++) if (a[i] < 0) { free(a); printf("bad-op\n"); return; }
-  int seed = a[0], nfree = a[1], nchain = a[2], neq = a[3], njeq = a[4], ntendon = a[5], jac = a[6], cone = a[7], steps = a[8], spread = a[9];
+  if (na != 11) { if (na >= 0) free(a); fprintf(so, "bad-op\n"); return; }
+  for (int i = 0; i < 11; i++) if (a[i] < 0) { free(a); fprintf(so, "bad-op\n"); return; }
+  int seed = a[0], nfree = a[1], nchain = a[2], neq = a[3], njeq = a[4], ntendon = a[5], jac = a[6], cone = a[7], steps = a[8], spread = a[9], nflex = a[10];
   free(a);
-  if (nfree > 400 || nchain > 200 || steps > 1000) { printf("bad-op\n"); return; }
+  if (nfree > 400 || nchain > 200 || steps > 1000 || nflex > 20) { fprintf(so, "bad-op\n"); return; }
   rs = 0x9E3779B97F4A7C15ULL ^ ((unsigned long long)seed * 0xD1B54A32D192ED03ULL + 12345);
   for (int i = 0; i < 5; i++) rnd();
 
@@ -260,6 +265,43 @@ static void do_scene(char* line) {
     if (r < 0.6) td->frictionloss = runi(0.01, 0.3);
     if (r > 0.4) { td->limited = mjLIMITED_TRUE; td->range[0] = runi(0.05, 0.2); td->range[1] = td->range[0] + 1; }
   }
+  // flexes: small cloth patches (dim 2) or cables (dim 1); every vertex is its own body with three sliders, i.e. its
+  // own kinematic tree.  Stiffness-active flexes couple all their vertex trees without any constraint row.
+  for (int f = 0; f < nflex; f++) {
+    int nx = 2 + rint_(2), ny = 2 + rint_(2);
+    int dim = rnd() < 0.8 ? 2 : 1;
+    if (dim == 1) ny = 1;
+    double ox = runi(0, L), oy = runi(0, L), oz = runi(0.0, 0.05);
+    char names[2048] = "";
+    for (int i = 0; i < nx; i++) for (int j = 0; j < ny; j++) {
+      mjsBody* b = mjs_addBody(world, NULL);
+      snprintf(name, sizeof(name), "f%dv%d", f, i * ny + j); mjs_setName(b->element, name);
+      strcat(names, name); strcat(names, " ");
+      b->pos[0] = ox + 0.1 * i; b->pos[1] = oy + 0.1 * j; b->pos[2] = oz + (rnd() < 0.5 ? 0.0 : runi(0.03, 0.3));
+      b->mass = 0.01; b->inertia[0] = b->inertia[1] = b->inertia[2] = 1e-5;
+      for (int ax = 0; ax < 3; ax++) { mjsJoint* jn = mjs_addJoint(b, NULL); jn->type = mjJNT_SLIDE; jn->axis[0] = ax == 0; jn->axis[1] = ax == 1; jn->axis[2] = ax == 2; }
+    }
+    mjsFlex* fx = mjs_addFlex(s);
+    snprintf(name, sizeof(name), "flex%d", f); mjs_setName(fx->element, name);
+    fx->dim = dim; fx->radius = 0.02; fx->thickness = 0.01;
+    double r = rnd();
+    if (r < 0.7) { fx->young = 1e4; int e2 = rnd() < 0.8 ? 3 : (rnd() < 0.5 ? 1 : 2); if (dim == 2) fx->elastic2d = e2; }   // else: no stiffness
+    fx->condim = condims[rint_(2)];
+    double* vert = calloc(3 * nx * ny, sizeof(double));
+    mjs_setDouble(fx->vert, vert, 3 * nx * ny); free(vert);
+    int elem[64], k = 0;
+    if (dim == 2) for (int i = 0; i < nx - 1; i++) for (int j = 0; j < ny - 1; j++) {
+      int a0 = i * ny + j, b0 = (i + 1) * ny + j, c0 = i * ny + j + 1, d0 = (i + 1) * ny + j + 1;
+      elem[k++] = a0; elem[k++] = b0; elem[k++] = c0; elem[k++] = b0; elem[k++] = d0; elem[k++] = c0;
+    } else for (int i = 0; i < nx - 1; i++) { elem[k++] = i; elem[k++] = i + 1; }
+    mjs_setInt(fx->elem, elem, k);
+    mjs_setStringVec(fx->vertbody, names);
+    if (rnd() < 0.4) {   // edge-length equality: one scalar row per edge, tree pattern changes per row
+      mjsEquality* eq = mjs_addEquality(s, NULL);
+      eq->type = mjEQ_FLEX; eq->objtype = mjOBJ_FLEX;
+      mjs_setString(eq->name1, name);
+    }
+  }
   s->option.jacobian = jac ? mjJAC_SPARSE : mjJAC_DENSE;
   s->option.cone = cone ? mjCONE_ELLIPTIC : mjCONE_PYRAMIDAL;
 
@@ -267,46 +309,66 @@ static void do_scene(char* line) {
   mjModel* m = NULL; mjData* d = NULL;
   if (setjmp(errjmp)) {
     errarmed = 0;
-    printf("engine-error %s\n", errmsg);
+    for (char* c = errmsg; *c; c++) if (*c == '\n' || *c == '\r') *c = ' ';
+    fprintf(so, "engine-error %s\n", errmsg);
     if (d) mj_deleteData(d); if (m) mj_deleteModel(m); mj_deleteSpec(s);
     return;
   }
   m = mj_compile(s, NULL);
-  if (!m) { errarmed = 0; printf("compile-error %s\n", mjs_getError(s)); mj_deleteSpec(s); return; }
+  if (!m) {
+    errarmed = 0;
+    char msg[400]; strncpy(msg, mjs_getError(s), sizeof(msg) - 1); msg[sizeof(msg) - 1] = 0;
+    for (char* c = msg; *c; c++) if (*c == '\n' || *c == '\r') *c = ' ';
+    fprintf(so, "compile-error %s\n", msg); mj_deleteSpec(s); return;
+  }
   m->opt.disableflags &= ~mjDSBL_ISLAND;
   d = mj_makeData(m);
   for (int k = 0; k < steps; k++) mj_step(m, d);
-  mj_forward(m, d);
+  mj_fwdPosition(m, d);   // position stage only: constraints + mj_island, no solver
   errarmed = 0;
 
   int nv = m->nv, nefc = d->nefc, ntree = m->ntree, nisland = d->nisland;
-  printf("ntree=%d nv=%d nefc=%d ncon=%d nisland=%d nidof=%d sparse=%d warn=%d", ntree, nv, nefc, d->ncon, nisland, d->nidof,
+  fprintf(so, "ntree=%d nv=%d nefc=%d ncon=%d nisland=%d nidof=%d sparse=%d warn=%d", ntree, nv, nefc, d->ncon, nisland, d->nidof,
          mj_isSparse(m), d->warning[mjWARN_CNSTRFULL].number + d->warning[mjWARN_CONTACTFULL].number);
-  printf(" | dof_treeid "); print_ints(m->dof_treeid, nv);
-  printf(" | tree_dofnum "); print_ints(m->tree_dofnum, ntree);
-  printf(" | tree_dofadr "); print_ints(m->tree_dofadr, ntree);
-  printf(" | efc_type "); print_ints(d->efc_type, nefc);
-  printf(" | efc_id "); print_ints(d->efc_id, nefc);
+  fprintf(so, " | dof_treeid "); sprint_ints(m->dof_treeid, nv);
+  fprintf(so, " | tree_dofnum "); sprint_ints(m->tree_dofnum, ntree);
+  fprintf(so, " | tree_dofadr "); sprint_ints(m->tree_dofadr, ntree);
+  fprintf(so, " | eq_type "); sprint_ints(m->eq_type, m->neq);
+  fprintf(so, " | tree_awake "); sprint_ints(d->tree_awake, ntree);
+  // raw flex data: rigid dim stiffness!=0 bendingadr interp, and the trees of the vertex bodies
+  fprintf(so, " | flexinfo ");
+  for (int f = 0; f < m->nflex; f++) {
+    int sadr = m->flex_stiffnessadr[f];
+    fprintf(so, f ? " ; %d %d %d %d %d" : "%d %d %d %d %d", (int)m->flex_rigid[f], m->flex_dim[f],
+           sadr >= 0 ? (m->flex_stiffness[sadr] != 0) : -1, m->flex_bendingadr[f], (int)m->flex_interp[f]);
+  }
+  fprintf(so, " | flextrees ");
+  for (int f = 0; f < m->nflex; f++) {
+    if (f) fprintf(so, " ;");
+    for (int v = 0; v < m->flex_vertnum[f]; v++) fprintf(so, " %d", m->body_treeid[m->flex_vertbodyid[m->flex_vertadr[f] + v]]);
+  }
+  fprintf(so, " | efc_type "); sprint_ints(d->efc_type, nefc);
+  fprintf(so, " | efc_id "); sprint_ints(d->efc_id, nefc);
   // dofs with a non-zero Jacobian entry, per row (values; for sparse J the stored entries that are non-zero)
-  printf(" | rowdofs ");
+  fprintf(so, " | rowdofs ");
   for (int i = 0; i < nefc; i++) {
-    if (i) printf(" ;");
+    if (i) fprintf(so, " ;");
     if (mj_isSparse(m)) {
       for (int k = 0; k < d->efc_J_rownnz[i]; k++)
-        if (d->efc_J[d->efc_J_rowadr[i] + k] != 0) printf(" %d", d->efc_J_colind[d->efc_J_rowadr[i] + k]);
+        if (d->efc_J[d->efc_J_rowadr[i] + k] != 0) fprintf(so, " %d", d->efc_J_colind[d->efc_J_rowadr[i] + k]);
     } else {
-      for (int j = 0; j < nv; j++) if (d->efc_J[(size_t)i * nv + j] != 0) printf(" %d", j);
+      for (int j = 0; j < nv; j++) if (d->efc_J[(size_t)i * nv + j] != 0) fprintf(so, " %d", j);
     }
   }
   // structural information for contacts: trees of the two geoms' bodies
-  printf(" | contact_trees ");
+  fprintf(so, " | contact_trees ");
   for (int c = 0; c < d->ncon; c++) {
     int g1 = d->contact[c].geom[0], g2 = d->contact[c].geom[1];
     int t1 = g1 >= 0 ? m->body_treeid[m->geom_bodyid[g1]] : -9, t2 = g2 >= 0 ? m->body_treeid[m->geom_bodyid[g2]] : -9;
-    printf(c ? " ; %d %d" : "%d %d", t1, t2);
+    fprintf(so, c ? " ; %d %d" : "%d %d", t1, t2);
   }
   if (nisland > 0) {
-#define DUMP(name, n) printf(" | " #name " "); print_ints(d->name, n);
+#define DUMP(name, n) fprintf(so, " | " #name " "); sprint_ints(d->name, n);
     DUMP(tree_island, ntree) DUMP(island_ntree, nisland) DUMP(island_itreeadr, nisland) DUMP(map_itree2tree, ntree)
     DUMP(dof_island, nv) DUMP(island_nv, nisland) DUMP(island_idofadr, nisland) DUMP(map_dof2idof, nv)
     DUMP(map_idof2dof, nv) DUMP(island_dofadr, nisland) DUMP(efc_island, nefc) DUMP(island_nefc, nisland)
@@ -314,8 +376,41 @@ static void do_scene(char* line) {
     DUMP(island_ne, nisland) DUMP(island_nf, nisland) DUMP(iefc_type, nefc) DUMP(iefc_id, nefc)
 #undef DUMP
   }
-  printf("\n");
+  fprintf(so, "\n");
   mj_deleteData(d); mj_deleteModel(m); mj_deleteSpec(s);
+}
+
+
+// every scene runs in a forked child, so that a crash of the engine is reported for that scene only
+static void do_scene(char* line) {
+  fflush(stdout);
+  int fd[2];
+  if (pipe(fd)) { printf("infra-error pipe\n"); return; }
+  pid_t pid = fork();
+  if (pid == 0) {
+    close(fd[0]);
+    char* buf = NULL; size_t len = 0;
+    so = open_memstream(&buf, &len);
+    scene_body(line);
+    fflush(so);
+    size_t off = 0;
+    while (off < len) { ssize_t w = write(fd[1], buf + off, len - off); if (w <= 0) _exit(4); off += w; }
+    _exit(0);
+  }
+  close(fd[1]);
+  size_t cap = 1 << 16, len = 0; char* buf = malloc(cap);
+  for (;;) {
+    if (len + 4096 > cap) { cap *= 2; buf = realloc(buf, cap); }
+    ssize_t r = read(fd[0], buf + len, cap - len);
+    if (r <= 0) break;
+    len += r;
+  }
+  close(fd[0]);
+  int st = 0; waitpid(pid, &st, 0);
+  if (WIFEXITED(st) && WEXITSTATUS(st) == 0 && len > 0 && buf[len - 1] == '\n') fwrite(buf, 1, len, stdout);
+  else if (WIFSIGNALED(st)) printf("crash signal=%d\n", WTERMSIG(st));
+  else printf("crash exit=%d\n", WIFEXITED(st) ? WEXITSTATUS(st) : -1);
+  free(buf);
 }
 
 int main(void) {
